@@ -94,8 +94,22 @@ func divergence(gotFinal, gotTrace, expFinal, expTrace string) string {
 
 func features(c Case) string {
 	set := map[string]bool{}
-	walk(c.Prog, func(s Stmt) {
+	for _, b := range c.blocks() {
+		featuresOf(b, set)
+	}
+	var fs []string
+	for k := range set {
+		fs = append(fs, k)
+	}
+	sort.Strings(fs)
+	return strings.Join(fs, ",")
+}
+
+func featuresOf(b []Stmt, set map[string]bool) {
+	walk(b, func(s Stmt) {
 		switch s.K {
+		case "cf":
+			set["recursion"] = true
 		case "gp":
 			set["hostpanic"] = true
 		case "rt":
@@ -119,12 +133,6 @@ func features(c Case) string {
 			}
 		}
 	})
-	var fs []string
-	for k := range set {
-		fs = append(fs, k)
-	}
-	sort.Strings(fs)
-	return strings.Join(fs, ",")
 }
 
 func violates(c Case) (string, implRes, string, string) {
@@ -235,15 +243,63 @@ func validJumps(b []Stmt, inLoop bool) bool {
 	return true
 }
 
+// candidates of a whole case: one shrinking step in the top level or in one named function, one level of
+// recursion less, the last named function dropped when nothing calls it
+func caseCandidates(c Case) []Case {
+	var res []Case
+	if c.Depth > 1 {
+		nc := c
+		nc.Depth--
+		res = append(res, nc)
+	}
+	if n := len(c.Fns); n > 0 {
+		called := false
+		for _, b := range c.blocks() {
+			walk(b, func(s Stmt) {
+				if s.K == "cf" && s.N == n-1 {
+					called = true
+				}
+			})
+		}
+		if !called {
+			nc := c
+			nc.Fns = c.Fns[:n-1]
+			res = append(res, nc)
+		}
+	}
+	for _, cand := range candidates(c.Prog) {
+		if validJumps(cand, false) {
+			nc := c
+			nc.Prog = cand
+			res = append(res, nc)
+		}
+	}
+	for k := range c.Fns {
+		for _, cand := range candidates(c.Fns[k]) {
+			if validJumps(cand, false) {
+				nc := c
+				nc.Fns = append([][]Stmt{}, c.Fns...)
+				nc.Fns[k] = cand
+				res = append(res, nc)
+			}
+		}
+	}
+	return res
+}
+
+func cloneCase(c Case) Case {
+	raw, _ := json.Marshal(c)
+	var r Case
+	json.Unmarshal(raw, &r)
+	return r
+}
+
 func shrink(c Case, kind string) Case {
 	cur := c
-	for round := 0; round < 40; round++ {
+	for round := 0; round < 60; round++ {
 		improved := false
-		for _, cand := range candidates(cur.Prog) {
-			if !validJumps(cand, false) {
-				continue
-			}
-			nc := Case{G: cur.G, Prog: cloneStmts(cand), Tag: cur.Tag}
+		for _, cand := range caseCandidates(cur) {
+			nc := cloneCase(cand)
 			if k, _, _, _ := violates(nc); k == kind {
 				cur = nc
 				improved = true
@@ -264,13 +320,28 @@ func (r *runner) check(c Case, replayMode bool) {
 		r.c.Hit("skipped-after-flood")
 		return
 	}
+	ef, et, steps, pendingCalls := referenceFull(c)
+	if steps > stepLimit && !replayMode {
+		r.c.Hit("skipped-too-long")
+		return
+	}
 	impl := runScript(c.script())
-	ef, et := reference(c)
 	toks := tokens(et)
 	nontrivial := len(toks) >= 3
 	r.c.Eval(c.modelProg()+"#"+c.G.model(), nontrivial)
 	r.c.Hit("final:" + strings.SplitN(ef, ":", 2)[0])
-	r.c.Hit(fmt.Sprintf("try-depth:%d", depthOf(c.Prog)))
+	r.c.Hit(fmt.Sprintf("try-depth:%d", c.tryDepth()))
+	if c.rec() {
+		r.c.Hit(fmt.Sprintf("recursion-depth:%d", c.Depth))
+		switch {
+		case pendingCalls == 0:
+			r.c.Hit("calls-while-a-control-is-pending:0")
+		case pendingCalls < 4:
+			r.c.Hit("calls-while-a-control-is-pending:1-3")
+		default:
+			r.c.Hit("calls-while-a-control-is-pending:4+")
+		}
+	}
 	r.c.HitN("events:T", len(countTok(toks, "T")))
 	r.c.HitN("events:F", len(countTok(toks, "F")))
 	r.c.HitN("events:C", len(countTok(toks, "C")))
@@ -348,6 +419,14 @@ func witnessCases() []Case {
 		{G: g, Tag: "misc/finally-return", Prog: []Stmt{{K: "f", Body: []Stmt{{K: "y", N: 1, Body: []Stmt{{K: "r", N: 1}}, HasFin: true, Fin: []Stmt{{K: "r", N: 2}}}}}}},
 		{G: g, Tag: "misc/finally-return-swallows", Prog: []Stmt{{K: "f", Body: []Stmt{{K: "y", N: 1, Body: []Stmt{{K: "t", Cls: 4, N: 1}}, HasFin: true, Fin: []Stmt{{K: "r", N: 2}}}}}}},
 		{G: g, Tag: "misc/top-return", Prog: []Stmt{{K: "y", N: 1, Body: []Stmt{{K: "r", N: 4}}, HasFin: true, Fin: []Stmt{{K: "e", N: 1}}}, {K: "e", N: 2}}},
+		// re-entrant: walk($n) { try { return } finally { walk($n - 1) } } — every activation returns its own value
+		{G: g, Tag: "reentry/walk", Depth: 3, Prog: []Stmt{{K: "cf", N: 0}}, Fns: [][]Stmt{{{K: "y", N: 1, Body: []Stmt{{K: "r", N: 7}}, HasFin: true, Fin: []Stmt{{K: "cf", N: 0}}}}}},
+		// a pending exception survives mutual recursion in the finally block and is caught two levels up
+		{G: g, Tag: "reentry/mutual-throw", Depth: 3, Prog: []Stmt{{K: "y", N: 3, Body: []Stmt{{K: "cf", N: 0}}, Catches: []Catch{{Types: []int{0}, Body: []Stmt{{K: "e", N: 6}}}}}},
+			Fns: [][]Stmt{{{K: "y", N: 1, Body: []Stmt{{K: "t", Cls: 4, N: 3}}, HasFin: true, Fin: []Stmt{{K: "cf", N: 1}}}},
+				{{K: "y", N: 2, Body: []Stmt{{K: "cf", N: 0}}, Catches: []Catch{{Types: []int{3}, Body: []Stmt{{K: "e", N: 5}}}}}}}},
+		// a call of a function that is not declared is a class-less error
+		{G: g, Tag: "reentry/undeclared", Depth: 1, Prog: []Stmt{{K: "y", N: 1, Body: []Stmt{{K: "cf", N: 5}}, Catches: []Catch{{Types: []int{4}, Body: []Stmt{{K: "e", N: 1}}}, {Types: []int{0}, Body: []Stmt{{K: "e", N: 2}}}}}, {K: "cf", N: 5}}},
 		{G: g, Tag: "misc/unbound-rethrow", Prog: []Stmt{{K: "y", N: 1, Body: []Stmt{{K: "rt"}}, Catches: []Catch{{Types: []int{4}, Body: []Stmt{{K: "e", N: 1}}}, {Types: []int{1}, Body: []Stmt{{K: "e", N: 2}}}}}}},
 	}
 }
@@ -401,11 +480,21 @@ func Run(c *vh.Ctx) {
 	c.Res.Exhaustive = true
 	c.Res.ExhaustiveWhat = fmt.Sprintf("depth 1: every exit path {fall,return,break,continue,throw,host panic,throw from a callee} × handler layout (13 class/interface relations singly, 6 multi-clause layouts, none) × catch-body action {normal,throw,rethrow,return,break,continue,host panic} × finally {none,normal,return,throw,break,continue,host panic} × context {top,loop,function,function+loop,guarded} = %d programs; depth 2: inner frame in the body / a catch body / the finally block of an outer frame over the %s alphabets = %d programs", n1, map[bool]string{false: "reduced", true: "full"}[c.Thorough()], n2)
 
+	nre := 0
+	enumReentry(c.Thorough(), func(cs Case) { r.check(cs, false); nre++ })
+	c.HitN("stream:reentry", nre)
+	c.Res.ExhaustiveWhat += fmt.Sprintf("; re-entrant: one frame in a function g0 that calls itself again (directly, through a second function, through an anonymous function, inside try/catch (Throwable); 2 or 3 nested activations; top-level call guarded or not) from the try block / the catch bodies / the finally block before the part's own action: exit path × {no clause, matching, non-matching, Throwable} × catch-body action × finally action × %s × {loop, no loop} × %s = %d programs", map[bool]string{false: "{one part, all parts}", true: "every non-empty set of parts"}[c.Thorough()], map[bool]string{false: "3 of the 16 shapes in rotation", true: "16 shapes"}[c.Thorough()], nre)
+
 	nr := c.N(1500, 60000)
 	for i := 0; i < nr; i++ {
 		r.check(randCase(c.Rand), false)
 	}
 	c.HitN("stream:random", nr)
+	nrr := c.N(1200, 30000)
+	for i := 0; i < nrr; i++ {
+		r.check(randRecCase(c.Rand), false)
+	}
+	c.HitN("stream:random-reentrant", nrr)
 
 	if r.failures >= floodLimit {
 		c.Note("more than %d failing programs: the remaining generated programs were skipped", floodLimit)
